@@ -52,7 +52,7 @@ LOOPS = [
     ("bfgs.bfgs main loop", "capped: MaxIterations (default MaxInt: unbounded by default)", "proved: capped_bound; inner lineSearch capped at 100"),
     ("adam.adam main loop", "capped: MaxIterations (default MaxInt: unbounded by default)", "proved: capped_bound"),
     ("newton.newton_root / newton_min main loops", "capped: MaxIterations (default MaxInt: unbounded by default)", "proved: capped_bound"),
-    ("newton inner `for { x2 = x1 - t1; ...; t1 *= c }`", "uncapped", "termination not provable (exits only by floating-point underflow x2 == x1), not refuted"),
+    ("newton inner `for { x2 = x1 - t1; ...; t1 *= c }`", "uncapped", "termination not provable (exits only by floating-point underflow x2 == x1), not refuted; exercised with constraint callbacks that reject every trial point (constraints-x0-only / -x0-point): returns 'line search failed' through the Vequals exit"),
     ("saga.saga* epoch loop", "capped: MaxIterations (default MaxInt: unbounded by default)", "proved: capped_bound (skeleton only; not exercised by the harness)"),
     ("blahut.blahut `for k < steps`", "capped: steps (mandatory argument)", "proved: capped_bound"),
     ("special.SumSeries / SumLogSeries / EvalContinuedFraction", "capped: max_terms", "proved: capped_bound"),
